@@ -5,8 +5,13 @@ package hmirror
 import (
 	"context"
 	"fmt"
+	"runtime"
 	"sort"
 	"strings"
+
+	"github.com/bits-and-blooms/bitset"
+	"github.com/gordian-engine/gordian/gcrypto"
+	"github.com/gordian-engine/gordian/tm/tmconsensus"
 )
 
 // nodeMonitor evaluates the state-machine side properties (C02, C07 state machine part, C08, C12a)
@@ -115,6 +120,13 @@ func (m *nodeMonitor) check() {
 		case "start":
 			m.afterStart = true
 			m.entered = false
+			// A new process lifetime may consult the strategy again; what must not repeat is a different signature (C02).
+			for _, rm := range m.rounds {
+				rm.chooseCalls, rm.decideCalls = 0, 0
+				rm.prevoteAnswer, rm.precommitAnswer = nil, nil
+				rm.enterReleased = false
+				rm.prevoteSigned, rm.precommitSigned = false, false
+			}
 		case "smstore":
 			m.entrance(e.h, e.r, true)
 		case "call":
@@ -354,16 +366,36 @@ func (m *nodeMonitor) quiescent() {
 	if !rm.enterReleased {
 		return
 	}
+	if !m.kernelAlive() {
+		return // reported by the liveness probe
+	}
 	h, r := m.curH, m.curR
 	total := w.total(h)
-	pvTotal := m.deliveredPower(h, func(k dkey) bool { return k.kind == 'p' && k.r == r })
-	pcTotal := m.deliveredPower(h, func(k dkey) bool { return k.kind == 'c' && k.r == r })
-	// Only what the mirror can have shown: its voting or committing view must be this round.
+	// What the mirror can have shown the state machine: its current view of this round.
 	sn := o.prevSnap
-	inView := sn.ok && ((sn.voting.Height == h && sn.voting.Round == r) || (sn.committing.Height == h && sn.committing.Round == r))
-	if !inView {
+	var view *tmconsensus.VersionedRoundView
+	if sn.ok && sn.voting.Height == h && sn.voting.Round == r {
+		view = &sn.voting
+	} else if sn.ok && sn.committing.Height == h && sn.committing.Round == r {
+		view = &sn.committing
+	}
+	if view == nil {
 		return
 	}
+	vals := w.VS(h).Validators
+	presence := func(proofs map[string]gcrypto.CommonMessageSignatureProof) (totalPow uint64, maxSingle uint64) {
+		var union, bs bitset.BitSet
+		for _, p := range proofs {
+			p.SignatureBitSet(&bs)
+			union.InPlaceUnion(&bs)
+			if pw := powerOf(vals, &bs); pw > maxSingle {
+				maxSingle = pw
+			}
+		}
+		return powerOf(vals, &union), maxSingle
+	}
+	pvTotal, pvSingle := presence(view.PrevoteProofs)
+	pcTotal, pcSingle := presence(view.PrecommitProofs)
 	// Awaiting a proposal (nothing voted, no thresholds reached) => proposal timer armed.
 	if !rm.prevoteSigned && rm.prevoteAnswer == nil && rm.chooseCalls == 0 && rm.decideCalls == 0 && !rm.finRequested &&
 		pvTotal < majority(total) && pcTotal < minority(total) {
@@ -378,25 +410,9 @@ func (m *nodeMonitor) quiescent() {
 		}
 	}
 	// The round is undecided and a precommit decision is due => DecidePrecommit was asked.
-	decided := false
-	for k := range o.s.delivered {
-		if k.h == h && k.r == r && k.kind == 'c' {
-			kk := k
-			if m.deliveredPower(h, func(x dkey) bool { return x == kk }) >= majority(total) {
-				decided = true
-			}
-		}
-	}
+	decided := pcSingle >= majority(total) || pcTotal == total
 	if !decided && rm.decideCalls == 0 && !rm.finRequested {
-		single := false
-		for k := range o.s.delivered {
-			if k.h == h && k.r == r && k.kind == 'p' {
-				kk := k
-				if m.deliveredPower(h, func(x dkey) bool { return x == kk }) >= majority(total) {
-					single = true
-				}
-			}
-		}
+		single := pvSingle >= majority(total)
 		if single || rm.prevoteDelayFired || pcTotal >= minority(total) {
 			trigger := "minority-precommits"
 			if single {
@@ -408,12 +424,48 @@ func (m *nodeMonitor) quiescent() {
 			if rm.prevoteAnswer != nil || rm.chooseCalls > 0 {
 				phase = "after-own-prevote"
 			}
-			o.violate("C08", "precommit-decision-not-requested:"+trigger+":"+phase, fmt.Sprintf("in %d/%d a precommit decision is due (single-block prevote quorum=%v, prevote delay fired=%v, precommit presence %d>=%d) but DecidePrecommit was never called", h, r, single, rm.prevoteDelayFired, pcTotal, minority(total)))
+			o.violate("C08", "precommit-decision-not-requested:"+trigger+":"+phase, fmt.Sprintf(
+				"in %d/%d a precommit decision is due (single-block prevote quorum=%v, prevote delay fired=%v, precommit presence %d>=%d in the mirror's view) but DecidePrecommit was never called", h, r, single, rm.prevoteDelayFired, pcTotal, minority(total)))
 		}
 	}
 }
 
-func (m *nodeMonitor) final() {}
+func (m *nodeMonitor) kernelAlive() bool {
+	buf := make([]byte, 1<<19)
+	buf = buf[:runtime.Stack(buf, true)]
+	return strings.Contains(string(buf), "tmstate.(*StateMachine).kernel(")
+}
+
+// final: the engine's kernels must still be running (a kernel that returned silently has stopped serving).
+func (m *nodeMonitor) final() {
+	n, o := m.n, m.o
+	if n.e == nil {
+		return
+	}
+	buf := make([]byte, 1<<20)
+	buf = buf[:runtime.Stack(buf, true)]
+	st := string(buf)
+	o.res.Count("liveness_probes", 1)
+	lifetime := "first-lifetime"
+	if n.restarts > 0 {
+		lifetime = "after-restart"
+	}
+	if !strings.Contains(st, "tmstate.(*StateMachine).kernel(") {
+		why := "unknown-cause"
+		for i := len(n.trace) - 1; i >= 0 && i > len(n.trace)-12; i-- {
+			if n.trace[i].kind == "astore" && strings.Contains(n.trace[i].x, "double action") {
+				why = "double-action-error-from-action-store"
+			}
+		}
+		o.violate("C09", "state-machine-kernel-exited:"+lifetime+":"+why, fmt.Sprintf("the engine is up but the state machine kernel goroutine has returned (state machine position %d/%d)", m.smH, m.smR))
+	}
+	if !strings.Contains(st, "tmi.(*Kernel).mainLoop(") {
+		o.violate("C09", "mirror-kernel-exited:"+lifetime, "the engine is up but the mirror kernel goroutine has returned")
+	}
+	if !strings.Contains(st, "tsi.(*ConsensusManager).kernel(") {
+		o.violate("C09", "consensus-manager-exited:"+lifetime, "the engine is up but the consensus manager goroutine has returned")
+	}
+}
 
 func atoi(s string) int {
 	n := 0
